@@ -84,7 +84,9 @@ func agree(v cadence.Value) (class string, detail string) {
 		return "type-ids-differ", m
 	}
 	if n == 0 {
-		return "dontcare:no-comparable-type-id", ""
+		// values agree; the type-ID clause has nothing to compare: a JSON-decoded container
+		// carries no static type ("the two decoded values have equal type IDs" is undefined here)
+		return "", "no-comparable-type-id"
 	}
 	return "", ""
 }
@@ -101,6 +103,10 @@ func runC43(env *mc.Env) {
 		case class == "":
 			env.R.Nontrivial(cdcval.Shape(v))
 			env.R.Class("agree:"+cdcval.Kind(v), func() any { return trunc(cdcval.Dump(v, c43Mode), 200) })
+			if detail == "no-comparable-type-id" {
+				env.R.DontCare.Add(1)
+				env.R.Class("dontcare(type-id clause only):json-decoded-container-has-no-type:"+cdcval.Kind(v), nil)
+			}
 		case len(class) > 9 && class[:9] == "dontcare:":
 			env.R.DontCare.Add(1)
 			env.R.Class(class+":"+cdcval.Kind(v), nil)
